@@ -32,7 +32,8 @@ TRUSTED = ["difflib.SequenceMatcher opcodes are an oracle: copy clause proved fo
            "valid_opcodes itself is evaluated on those opcodes (cases 'difflib_opcodes_valid'), so the hypothesis is observed, not only assumed",
            "DeepHash of set members is an injective function in the soundness theorem (the real one is not: finding K1) and the stand-in hatom_simple in the "
            "correspondence (pairs whose sets hold ==-aliased numbers or tag-like strings are compared by the direct oracle only)",
-           "datetimes and numeric arrays are outside the model: direct oracle only (numpy is installed in /venv)",
+           "datetimes and numeric arrays are outside the model: direct oracle only (numpy is installed in /venv); Python == / numpy.array_equal + equal shape is the oracle; "
+           "failing cases carry a pickle of the inputs so that tzinfo and memory layout survive the replay",
            "values are tree-shaped (fresh containers), floats are half-integers, no bytes dict keys (finding F5)",
            "cache_size / max_passes are not in the model (ordered mode never consults them): inertness is checked on the implementation"]
 ASSUMPTIONS = ["threshold_to_diff_deeper <= 1", "dict/set inputs satisfy Python's representation invariant (keys / members pairwise !=)",
@@ -636,7 +637,7 @@ def replay_witnesses(ctx):
 
 
 def run(ctx):
-    n_values = 1500 if ctx.thorough else 200
+    n_values = 1500 if ctx.thorough else 170
     pairs = gen_model_pairs(ctx, n_values) + small_pairs(ctx, 600)
     cases, vcases = [], []
     for i, (t1, t2, kind, is_copy) in enumerate(pairs):
